@@ -41,6 +41,7 @@ func StdScope() rel.Scope {
 		goStdlib := rel.MergeTuples(SafeStdScopeTuple(), rel.NewTuple(
 			stdOsUnsafe(),
 			stdNet(),
+			stdDeprecated(),
 		))
 		arraiUnsafeStdlib := mustParseBundle(stdlibUnsafeArraiz())
 		stdlibVal, err := rel.NewCallExprCurry(*parser.NewScanner("stdlib"), arraiUnsafeStdlib, goStdlib).
@@ -177,7 +178,6 @@ func SafeStdScopeTuple() rel.Tuple {
 		stdBits(),
 		stdFmt(),
 		stdRuntime(),
-		stdDeprecated(),
 	)
 	arraiSafeStdlib := mustParseBundle(stdlibSafeArraiz())
 	stdlibVal, err := rel.NewCallExprCurry(*parser.NewScanner("stdlib"), arraiSafeStdlib, goStdlib).
